@@ -23,6 +23,8 @@ Value tokens (stdin of the program, input of the oracle and of `modeld_c19 val`)
 import os
 import struct
 
+import genh
+
 ARRAY_LENS = (0, 1, 2, 3, 4, 8)
 INFRA_MODS = ["vhelp", "operator", "builtins", "math"]
 
@@ -177,8 +179,15 @@ def package_table(shape):
     pk += [("bsig", "bind", "vhelp"), ("bsig2", "bind", "vhelp")]
     for b in shape["bindings"]:
         pk.append((b["go"], "bind", shape["mods"][b["mod"]]))
+    hier = shape.get("hier")
+    if hier:
+        for mi, m in enumerate(hier["mods"]):
+            pk.append(("bq%d" % mi, "bind", m))
     pk.append(("vdump", "plain", None))
     pk += [("vsig", "plain", None), ("vsa", "plain", None), ("vsb", "plain", None)]
+    if hier:
+        for u in hier["users"]:
+            pk.append((u["go"], "hier", u))
     for u in shape["users"]:
         pk.append((u["go"], "user", u))
     pk.append(("main", "user", shape["main"]))
@@ -186,7 +195,7 @@ def package_table(shape):
 
 
 def all_modules(shape):
-    return list(shape["mods"]) + INFRA_MODS
+    return list(shape["mods"]) + INFRA_MODS + (list(shape["hier"]["mods"]) if shape.get("hier") else [])
 
 
 # ------------------------------------------------------------------ Python modules
@@ -210,6 +219,8 @@ def write_pymods(d, shape, pysrc):
                 src.append("%s = %s" % (a, v))
         with open(os.path.join(path, parts[-1] + ".py"), "w") as f:
             f.write("\n".join(src) + "\n")
+    if shape.get("hier"):
+        genh.write_pymods(d, shape["hier"])
 
 
 # ------------------------------------------------------------------ Go sources
@@ -537,6 +548,11 @@ func main() {
 			p := int(vio.Uint())
 			k := int(vio.Uint())
 			useCase(p, k)
+		case 'H':
+			p := int(vio.Uint())
+			c := int(vio.Int())
+			k := int(vio.Uint())
+			vdump.Dump(hierCase(p, c, k, build()))
 		default:
 			print("bad-op")
 		}
@@ -644,7 +660,10 @@ def tables_src(mod, shape, baked, sig_enabled=None):
     for u in shape["users"]:
         imps.add('"%s/%s"' % (mod, u["go"]))
     imps |= {'"%s/vsig"' % mod, '"%s/vsa"' % mod, '"%s/vsb"' % mod}
-    L = [sig_sources(mod, sig_enabled)[1], "func callFn(fn int, n int, a *[6]*py.Object) *py.Object {", "\tswitch fn {"]
+    hier = shape.get("hier") or {"users": []}
+    for u in hier["users"]:
+        imps.add('"%s/%s"' % (mod, u["go"]))
+    L = [genh.dispatcher(hier), sig_sources(mod, sig_enabled)[1], "func callFn(fn int, n int, a *[6]*py.Object) *py.Object {", "\tswitch fn {"]
     for i, (gp, gn, pm, pa, ar) in enumerate(fns):
         L.append("\tcase %d:" % i)
         if ar == "v":
@@ -694,6 +713,8 @@ def write_program(d, shape, mod, baked, gosrc, repo_gosum, sig_enabled=None):
     for u in shape["users"]:
         files["%s/%s.go" % (u["go"], u["go"])] = user_src(mod, shape, u["go"], u, False)
     files.update(sig_sources(mod, sig_enabled)[0])
+    if shape.get("hier"):
+        files.update(genh.sources(mod, shape["hier"], fn_decl, binding_src))
     files["main.go"] = MAIN_STATIC.replace("@MOD@", mod)
     files["use_main.go"] = user_src(mod, shape, "main", shape["main"], True)
     files["tables.go"] = tables_src(mod, shape, baked, sig_enabled)
@@ -910,6 +931,9 @@ def make_cases(rng, shape, baked, n_values, n_calls, sig_enabled=None):
     for k, t in enumerate(baked):
         tok = tree_tokens(t)
         cases.append({"kind": "strnul" if k == 0 else "baked", "op": "K %d" % k, "oracle": {"k": "value1", "tok": tok}, "model": model_line(t), "tree": t})
+    # hierarchies of modules / symbols mentioned only in later compile rounds
+    if shape.get("hier"):
+        cases += genh.cases(rng, shape["hier"], tree_tokens, rand_tree)
     # (iii) + (iv): lookups and uses from every ordinary package
     pk = package_table(shape)
     for pid, (go, kind, info) in enumerate(pk):
